@@ -17,7 +17,7 @@ out = ["# Seeded changes", "",
        "Every directory holds `patch.diff`, `demo.py` (fails with the change, passes without), `notes.md` (the sub-agent's description, incl. what the change needs to manifest) and `meta.json`.",
        "All were produced by fresh sub-agents that saw only the property text and a scratch worktree, then confirmed here: the demo exits 0 on the clean tree and non-zero with the patch, and the repository's 165 baseline tests still pass with the patch (`tools/confirm_seed.py`).",
        "`tools/selftest.py` applies each patch to a scratch worktree (never /repo) and runs the owning property's quick check against it (`VERIF_REPO`).",
-       "Round-2 seeds (`-R2x`) were requested with a description of the campaign they had to evade.", "",
+       "Round-2 / round-3 seeds (`-R2x`, `-R3x`) were requested with a description of the campaign they had to evade (C10-C17 round 3: property text only).", "",
        "| seed | property | quick check | first reported clause |", "|---|---|---|---|"]
 nd = 0
 for s in seeds:
